@@ -120,6 +120,29 @@ pub fn exec(sc: &Scenario, st: &mut Stats) -> Option<Violation> {
                     st.comparisons += *len;
                     st.situation(kind, &spec.params, phase(*count, window, *was_reset), 2, last_fault, spec.mode, 0);
                 }
+                Op::Soak { seed, len, .. } => {
+                    what = "next()";
+                    let mut w = World::from_desc(&StreamDesc { regime: Regime::Walk, level: crate::sut::Fx(100.0), saw: 3, seed: *seed, neg: false });
+                    let cycle: Vec<Input> = (0..4096).map(|_| w.clean()).collect();
+                    let mode = spec.mode;
+                    let mut acc = 0u64;
+                    on(Side::Subject, || {
+                        let mut k = 0usize;
+                        for _ in 0..*len {
+                            let (o, _) = node.feed(mode, &cycle[k]);
+                            acc ^= o.bits()[0];
+                            k = (k + 1) & 4095;
+                        }
+                    });
+                    digest = fnv_u64(digest, acc);
+                    *count += *len;
+                    st.ticks += *len;
+                    st.comparisons += *len;
+                    if *len > u32::MAX as u64 {
+                        st.bump("runs_past_2^32_calls");
+                    }
+                    st.situation(kind, &spec.params, phase(*count, window, *was_reset), 13, last_fault, spec.mode, 0);
+                }
                 Op::Reset { .. } => {
                     what = "reset()";
                     on(Side::Subject, || node.reset());
@@ -329,7 +352,7 @@ fn grid_b(idx: u64, specs: &[NodeSpec], starts: &[u64], cyc: &[(Input, Fault)]) 
     let shape = (idx % 4) as usize;
     if s > 24 {
         // long clean prefixes as one generated stream op keeps the scenario small
-        ops.push(Op::Gen { n: 0, g: StreamDesc { regime: [Regime::Up, Regime::Down, Regime::Few, Regime::Flat][shape], level: crate::sut::Fx(10.0), saw: 3, seed: 7 }, skip: 0, len: s as u64, fault: None, every: 0, reset_every: 0, clone_every: 0 });
+        ops.push(Op::Gen { n: 0, g: StreamDesc { regime: [Regime::Up, Regime::Down, Regime::Few, Regime::Flat][shape], level: crate::sut::Fx(10.0), saw: 3, seed: 7, neg: false }, skip: 0, len: s as u64, fault: None, every: 0, reset_every: 0, clone_every: 0 });
     } else {
         for j in 0..s {
             ops.push(Op::Feed { n: 0, x: clean_tick(j, shape), f: Fault::Clean });
@@ -348,6 +371,52 @@ fn grid_b(idx: u64, specs: &[NodeSpec], starts: &[u64], cyc: &[(Input, Fault)]) 
     ops.push(Op::Feed { n: 0, x: fx, f: ff });
     ops.push(Op::Feed { n: 0, x: clean_tick(s + 3, shape), f: Fault::Clean });
     Scenario { property: PROP.into(), stage: "grid-b".into(), nodes: vec![spec], ops, workers: 0 }
+}
+
+/// grid-mega: every O(1)-per-call kind with windows around and beyond 2^16 slots, 3*period+3 calls, with
+/// reset / clone / Display / save at the end (narrow integer types for cursors, counters, weight totals)
+fn mega_specs(periods: &[usize]) -> Vec<NodeSpec> {
+    let mut v = vec![];
+    for &k in ALL_KINDS.iter() {
+        if !gen::cheap_per_tick(k) || k.n_periods() == 0 {
+            continue;
+        }
+        for &p in periods {
+            let modes: Vec<Mode> = if k.has_scalar() { vec![Mode::Scalar, Mode::Bar] } else { vec![Mode::Bar] };
+            for m in modes {
+                v.push(NodeSpec { kind: k, params: Params::new(p, 3, 2, 2.0), mode: m, dflt: false });
+                if k.n_periods() > 1 {
+                    v.push(NodeSpec { kind: k, params: Params::new(3, p, 2, 2.0), mode: m, dflt: false });
+                }
+            }
+        }
+    }
+    v
+}
+
+fn grid_mega(idx: u64, specs: &[NodeSpec]) -> Scenario {
+    let spec = specs[idx as usize];
+    let sp = spec.params.sum_periods(spec.kind) as u64;
+    let g = StreamDesc { regime: [Regime::Walk, Regime::Up, Regime::Few][(idx % 3) as usize], level: crate::sut::Fx(50.0), saw: 5, seed: idx, neg: false };
+    let ops = vec![
+        Op::Gen { n: 0, g, skip: 0, len: 3 * sp + 3, fault: if idx % 2 == 0 { Some(Fault::Nan) } else { None }, every: 50_001, reset_every: 0, clone_every: 0 },
+        Op::Format { n: 0 },
+        Op::Save { n: 0 },
+        Op::Fork { src: 0, dst: 1, into: false },
+        Op::Feed { n: 1, x: clean_tick(1, 0), f: Fault::Clean },
+        Op::Reset { n: 0 },
+        Op::Gen { n: 0, g, skip: 7, len: sp + 2, fault: None, every: 0, reset_every: 0, clone_every: 0 },
+    ];
+    Scenario { property: PROP.into(), stage: "grid-mega".into(), nodes: vec![spec], ops, workers: 0 }
+}
+
+/// soak (thorough only): every kind, smallest windows, more than 2^32 calls on one instance
+fn soak_scenario(idx: u64) -> Scenario {
+    let kind = ALL_KINDS[(idx % 22) as usize];
+    let mode = if kind.has_scalar() { Mode::Scalar } else { Mode::Bar };
+    let spec = NodeSpec { kind, params: Params::new(2, 2, 2, 2.0), mode, dflt: false };
+    let ops = vec![Op::Soak { n: 0, seed: idx, len: (1u64 << 32) + 4096 + 7 }, Op::Format { n: 0 }, Op::Save { n: 0 }, Op::Reset { n: 0 }, Op::Soak { n: 0, seed: idx + 1, len: 5000 }];
+    Scenario { property: PROP.into(), stage: "soak".into(), nodes: vec![spec], ops, workers: 0 }
 }
 
 // ---------------------------------------------------------------------------------------------
@@ -457,13 +526,35 @@ pub fn run(tier: Tier) -> i32 {
     let specs_b = grid_specs(b_max_p);
     let (nb, starts) = grid_b_count(&specs_b, cyc.len());
     let gb = if ga.found.is_none() { Some(run_stage("grid-b", if gen::skip_fixed() { 1 } else { nb }, wall_cap, &mut total, &|i| grid_b(i, &specs_b, &starts, &cyc), &exec, &[5000], 30)) } else { None };
-    let seeded = if ga.found.is_none() && gb.as_ref().map_or(true, |g| g.found.is_none()) {
+    let mega_periods: &[usize] = match tier {
+        Tier::Quick => &[65_535, 65_536, 65_537, 131_073],
+        Tier::Thorough => &gen::MEGA_PERIODS,
+    };
+    let mspecs = mega_specs(mega_periods);
+    let clean_so_far = ga.found.is_none() && gb.as_ref().map_or(true, |g| g.found.is_none());
+    let gm = if clean_so_far && !gen::skip_fixed() { Some(run_stage("grid-mega", mspecs.len() as u64, wall_cap, &mut total, &|i| grid_mega(i, &mspecs), &exec, &[0], 8)) } else { None };
+    let soak = if clean_so_far && gm.as_ref().map_or(true, |g| g.found.is_none()) && tier == Tier::Thorough && !gen::skip_fixed() {
+        // 22 runs of > 2^32 calls each (about half a minute per run and core); the hang watchdog is told
+        std::env::set_var("VERIF_HANG_LIMIT", "900");
+        let r = run_stage("soak", 22, Duration::from_secs(3000), &mut total, &soak_scenario, &exec, &[0], 5);
+        std::env::remove_var("VERIF_HANG_LIMIT");
+        Some(r)
+    } else {
+        None
+    };
+    let seeded = if clean_so_far && gm.as_ref().map_or(true, |g| g.found.is_none()) && soak.as_ref().map_or(true, |g| g.found.is_none()) {
         Some(run_stage("seeded", seeded_runs, wall_cap, &mut total, &|i| generate(&mut Rng::new(run_seed(c.seed, PROP, "seeded", i)), tier), &exec, &[0], 24))
     } else {
         None
     };
     let mut stages = vec![&ga];
     if let Some(s) = &gb {
+        stages.push(s);
+    }
+    if let Some(s) = &gm {
+        stages.push(s);
+    }
+    if let Some(s) = &soak {
         stages.push(s);
     }
     if let Some(s) = &seeded {
@@ -477,7 +568,7 @@ pub fn run(tier: Tier) -> i32 {
         &total,
         report::EvidenceMeta {
             level: "fault_enumeration",
-            rule: "Enumerated part (seed independent): grid-a = every indicator x every period 1..=64 (period-tuple variants for multi-period kinds) x every input mode x multipliers {2,0,-2,1e300,NaN,inf} x 8 offsets, each a run of 3*sum(periods)+19 calls whose every third input cycles through every fault value class (as a whole tick and as single-field hits), with reset/clone/Display/Debug/save+load at a fixed stride; grid-b = every cursor state s in 0..3*sum+3 x every fault value for periods up to the stated bound: s clean ticks, the fault value, then Display/Debug/save/clone/round-trip/reset on the poisoned state and further ticks. Seeded part: swarm runs with periods log-uniform up to 4096, random fault subsets at 0.5%..60%, reset storms, forks, up to 2000 (quick) / 20000 (thorough) ticks. Built with overflow-checks and debug-assertions. distinct_nontrivial counts distinct (indicator, period bucket, window phase, op kind, fault kind of the delivered tick, input mode) tuples in which a call was made and returned.",
+            rule: "Enumerated part (seed independent): grid-a = every indicator x every period 1..=64 (period-tuple variants for multi-period kinds) x every input mode x multipliers {2,0,-2,1e300,NaN,inf} x 8 offsets, each a run of 3*sum(periods)+19 calls whose every third input cycles through every fault value class (as a whole tick and as single-field hits), with reset/clone/Display/Debug/save+load at a fixed stride; grid-b = every cursor state s in 0..3*sum+3 x every fault value for periods up to the stated bound: s clean ticks, the fault value, then Display/Debug/save/clone/round-trip/reset on the poisoned state and further ticks. grid-mega = every O(1)-per-call indicator with windows of 65535, 65536, 65537, 131073 (thorough: eight sizes up to 200000) slots, 3*sum+3 calls, then Display/save/clone/reset and a refill; soak (thorough only) = every indicator, smallest windows, 2^32+4103 calls on one instance. Seeded part: swarm runs with periods log-uniform up to 4096, random fault subsets at 0.5%..60%, reset storms, forks, up to 2000 (quick) / 20000 (thorough) ticks. Built with overflow-checks and debug-assertions. distinct_nontrivial counts distinct (indicator, period bucket, window phase, op kind, fault kind of the delivered tick, input mode) tuples in which a call was made and returned.",
             assumptions: vec![
                 "outputs are not judged; only that every call returns without panic (panic hook + catch_unwind) and that no run stalls for 60 s".into(),
                 "harness profile: opt-level 2, overflow-checks = true, debug-assertions = true for ta and the harness".into(),
@@ -488,6 +579,8 @@ pub fn run(tier: Tier) -> i32 {
             exhaustive: grid_complete,
             extra: json!({"grid_a": {"specs": specs.len(), "offsets": offsets, "fault_values_in_cycle": cyc.len(), "stage": ga.json()},
                            "grid_b": {"specs": specs_b.len(), "max_period": b_max_p, "stage": gb.as_ref().map(|g| g.json())},
+                           "grid_mega": {"specs": mspecs.len(), "periods": mega_periods, "stage": gm.as_ref().map(|g| g.json())},
+                           "soak_past_2^32_calls": soak.as_ref().map(|g| g.json()),
                            "seeded": seeded.as_ref().map(|s| s.json()), "dead_fault_kinds": dead,
                            "exhaustive_note": "exhaustive refers to the enumerated grids only (the stated finite space), not to all input sequences"}),
         },
